@@ -22,6 +22,7 @@ from fractions import Fraction
 
 import numpy as np
 import torch
+import z3
 
 from vk import ops_chan as OC
 from vk import spec as SP
@@ -54,7 +55,21 @@ def near(a, b, scale):
     d = S.sub(a, b)
     if not isinstance(d, S.Sym):
         return S.le(abs(d), S.add(S.mul(RT, scale), AT)) if isinstance(scale, S.Sym) else abs(d) <= RT * scale + AT
+    d = unsqrt(d) if S.explorer() is not None else d
+    if not isinstance(d, S.Sym):
+        return near(d, 0, scale)
     return S.le(S.sabs(d), S.add(S.mul(RT, scale), AT))
+
+
+def zsimp(v):
+    """polynomial normal form of a real term (z3 simplifier, sum of monomials); a term that normalises to a number becomes that number.
+    Only the syntactic shape changes: the result is equal to v for every assignment."""
+    if not isinstance(v, S.Sym) or v.sort != "real" or v.rad is not None:
+        return v
+    e = z3.simplify(v.e, som=True)
+    if z3.is_rational_value(e):
+        return S.norm(Fraction(e.numerator_as_long(), e.denominator_as_long()))
+    return S.Sym(e)
 
 
 def all_near(a, b, scale):
@@ -86,6 +101,114 @@ def mean_abs2(re, im):
     return S.div(acc, n)
 
 
+def sqrt_defs():
+    """(s, r) for every auxiliary s introduced by the engine as  s >= 0 and s*s == r  (side constraints of the current path)"""
+    ex = S.explorer()
+    out = []
+    if ex is None:
+        return out
+    for c in ex.sides:
+        if z3.is_and(c) and c.num_args() == 2:
+            a, b = c.arg(0), c.arg(1)
+            if z3.is_ge(a) and z3.is_eq(b) and z3.is_mul(b.arg(0)) and b.arg(0).num_args() == 2 and z3.eq(b.arg(0).arg(0), a.arg(0)) and z3.eq(b.arg(0).arg(1), a.arg(0)) and z3.is_const(a.arg(0)):
+                out.append((a.arg(0), b.arg(1)))
+    return out
+
+
+def _rewrite_squares(e, defs):
+    if z3.is_mul(e):
+        kids = [_rewrite_squares(k, defs) for k in e.children()]
+        for sv, r in defs:
+            idx = [i for i, k in enumerate(kids) if z3.eq(k, sv)]
+            while len(idx) >= 2:
+                i, j = idx.pop(), idx.pop()
+                kids[i] = r
+                kids[j] = z3.RealVal(1)
+        # |t| * |t| == t * t : a pair of identical If(c, a, b) factors with a + b == 0 is a*a whatever c is
+        for i in range(len(kids)):
+            for j in range(i + 1, len(kids)):
+                ki, kj = kids[i], kids[j]
+                if z3.is_app(ki) and ki.decl().kind() == z3.Z3_OP_ITE and z3.eq(ki, kj):
+                    a, b = ki.arg(1), ki.arg(2)
+                    zs = z3.simplify(a + b, som=True)
+                    if z3.is_rational_value(zs) and zs.numerator_as_long() == 0:
+                        kids[i], kids[j] = a, a
+        acc = kids[0]
+        for k in kids[1:]:
+            acc = acc * k
+        return acc
+    if z3.is_app(e) and e.num_args() > 0 and e.decl().kind() == z3.Z3_OP_POWER:
+        base, ex_ = e.arg(0), e.arg(1)
+        for sv, r in defs:
+            if z3.eq(base, sv) and z3.is_rational_value(ex_) and ex_.denominator_as_long() == 1 and ex_.numerator_as_long() % 2 == 0 and ex_.numerator_as_long() > 0:
+                acc = r
+                for _ in range(ex_.numerator_as_long() // 2 - 1):
+                    acc = acc * r
+                return acc
+        return e
+    if z3.is_app(e) and e.num_args() > 0 and (z3.is_add(e) or z3.is_sub(e) or e.decl().kind() == z3.Z3_OP_UMINUS):
+        kids = [_rewrite_squares(k, defs) for k in e.children()]
+        return e.decl()(*kids)
+    return e
+
+
+def unsqrt(v):
+    """rewrite s*s -> r inside the polynomial normal form of v for the engine's sqrt auxiliaries (s >= 0, s*s == r are side constraints of
+    the path, so the rewritten term is equal to v under the path's constraints); other occurrences of s are left alone."""
+    v = zsimp(v)
+    if not isinstance(v, S.Sym) or v.sort != "real":
+        return v
+    return zsimp(S.Sym(_rewrite_squares(v.e, sqrt_defs())))
+
+
+def _ratnorm(e):
+    """(numerator, denominator) polynomials of a real z3 term built from + - * / (other terms are atoms)"""
+    one = z3.RealVal(1)
+    if z3.is_app(e) and e.num_args() > 0:
+        k = e.decl().kind()
+        if k == z3.Z3_OP_DIV:
+            (an, ad), (bn, bd) = _ratnorm(e.arg(0)), _ratnorm(e.arg(1))
+            return an * bd, ad * bn
+        if k == z3.Z3_OP_MUL:
+            n, d = one, one
+            for c in e.children():
+                cn, cd = _ratnorm(c)
+                n, d = n * cn, d * cd
+            return n, d
+        if k in (z3.Z3_OP_ADD, z3.Z3_OP_SUB):
+            n, d = _ratnorm(e.arg(0))
+            for c in e.children()[1:]:
+                cn, cd = _ratnorm(c)
+                n, d = (n * cd + cn * d, d * cd) if k == z3.Z3_OP_ADD else (n * cd - cn * d, d * cd)
+            return n, d
+        if k == z3.Z3_OP_UMINUS:
+            n, d = _ratnorm(e.arg(0))
+            return -n, d
+    return e, one
+
+
+def rat_eq(a, b):
+    """a == b as rational functions, decided by cross-multiplied polynomial normal form (valid wherever both denominators are non-zero;
+    the denominators are returned so that the caller states their non-vanishing).  Returns (bool, [denominators])"""
+    a, b = unsqrt(a), unsqrt(b)
+    ea, eb = S.zreal(a), S.zreal(b)
+    (an, ad), (bn, bd) = _ratnorm(ea), _ratnorm(eb)
+    d = z3.simplify(z3.simplify(an * bd - bn * ad, som=True), som=True)
+    ok = z3.is_rational_value(d) and d.numerator_as_long() == 0
+    return ok, [S.Sym(ad), S.Sym(bd)]
+
+
+def uf_apps(e, name, acc=None):
+    acc = [] if acc is None else acc
+    if z3.is_app(e):
+        if e.decl().name() == name and e.num_args() == 1:
+            if not any(z3.eq(e, x) for x in acc):
+                acc.append(e)
+        for c in e.children():
+            uf_apps(c, name, acc)
+    return acc
+
+
 class Forced:
     """RNG contract stub that returns prescribed values: evaluation of the code under contract at a chosen point of the draw space"""
 
@@ -111,11 +234,13 @@ class Forced:
         return torch.complex(tr, ti).to(dtype)
 
 
-def eval_at(ctx, fn, args, kwargs, values):
-    """run the real function with the RNG draws prescribed; returns the result tensor"""
+def eval_at(ctx, fn, args, kwargs, values, partial=False):
+    """run the real function with the RNG draws prescribed; returns the result tensor (partial: also the number of draws consumed)"""
     rng = Forced(ctx, values)
     with (SymMode(rng=rng) if ctx.mode == "sym" else NativeRNGMode(rng)):
         out = fn(*args, **kwargs)
+    if partial:
+        return out, rng.k
     if rng.k != len(values):
         raise S.EngineFault("re-execution consumed fewer RNG draws than the recorded run")
     return out
@@ -154,10 +279,19 @@ def unit_values(draws, s):
     return vals
 
 
-def noise_algebra(ctx, fn, args, kwargs, y, base, draws, target=None, snr_lin=None, signal_power=None, var_override=None, tag="", xscale=None):
+def recorded_values(draws):
+    """the recorded (symbolic / native) draws as prescribed values: re-execution at the same point of the draw space"""
+    vals = []
+    for name, law, t in draws:
+        re, im = PC(t)
+        vals.append((re, im if t.dtype.is_complex else None))
+    return vals
+
+
+def noise_algebra(ctx, fn, args, kwargs, y, base, draws, target=None, snr_lin=None, signal_power=None, var_override=None, tag="", xscale=None, prefix=()):
     """the five clauses of the module docstring for one channel run.
     y: result tensor of the recorded run; base = (re, im) payload the noise is added to; draws: the recorded RNG draws of the noise stage
-    (all draws of the run); target: configured noise power (payload scalar) or None; snr_lin: 10^(snr/10) as exact rational of the float64."""
+    (prefix: values prescribed for the draws made before the noise stage, e.g. the fading draws, held fixed); target: configured noise power (payload scalar) or None; snr_lin: 10^(snr/10) as exact rational of the float64."""
     yr, yi = PC(y)
     br, bi = base
     n = yr.size
@@ -166,7 +300,8 @@ def noise_algebra(ctx, fn, args, kwargs, y, base, draws, target=None, snr_lin=No
     ctx.ensure(tag + "one_draw_per_element", shapes_ok and len(syms) > 0)
     if not shapes_ok or not syms:
         return None
-    y0 = eval_at(ctx, fn, args, kwargs, zero_values(draws))
+    prefix = list(prefix)
+    y0 = eval_at(ctx, fn, args, kwargs, prefix + zero_values(draws))
     y0r, y0i = PC(y0)
     if xscale is None:
         xscale = cabs1(br, bi)
@@ -174,7 +309,7 @@ def noise_algebra(ctx, fn, args, kwargs, y, base, draws, target=None, snr_lin=No
     # coefficients by evaluation at the unit vectors
     C = []
     for s in syms:
-        yj = eval_at(ctx, fn, args, kwargs, unit_values(draws, s))
+        yj = eval_at(ctx, fn, args, kwargs, prefix + unit_values(draws, s))
         yjr, yji = PC(yj)
         cr = np.array([S.sub(a, b) for a, b in zip(yjr.reshape(-1), y0r.reshape(-1))], dtype=object)
         ci = np.array([S.sub(a, b) for a, b in zip(yji.reshape(-1), y0i.reshape(-1))], dtype=object)
@@ -191,7 +326,7 @@ def noise_algebra(ctx, fn, args, kwargs, y, base, draws, target=None, snr_lin=No
                 continue
             accr = S.add(accr, S.mul(cr[i], s["sym"]))
             acci = S.add(acci, S.mul(ci[i], s["sym"]))
-            p = S.add(p, S.mul(S.add(sq(cr[i]), sq(ci[i])), s["var"]))
+            p = S.add(p, S.mul(S.add(unsqrt(sq(cr[i])), unsqrt(sq(ci[i]))), s["var"]))
             mag = S.add(mag, S.mul(S.add(S.sabs(cr[i]), S.sabs(ci[i])), S.sabs(s["sym"])))
         aff.append(S.land(near(S.sub(yrf[i], y0rf[i]), accr, mag), near(S.sub(yif[i], y0if[i]), acci, mag)))
         powers.append(p)
@@ -205,13 +340,19 @@ def noise_algebra(ctx, fn, args, kwargs, y, base, draws, target=None, snr_lin=No
         if target is not None:
             pw.append(near(powers[i], target, S.add(S.sabs(target), S.mul(xs[i], csum))))
         if snr_lin is not None:
-            pw.append(near(S.mul(powers[i], snr_lin), signal_power, S.add(S.sabs(signal_power), S.mul(S.mul(xs[i], csum), snr_lin))))
+            sp = signal_power.reshape(-1)[i] if isinstance(signal_power, np.ndarray) else signal_power
+            pw.append(near(S.mul(powers[i], snr_lin), sp, S.add(S.sabs(sp), S.mul(S.mul(xs[i], csum), S.sabs(snr_lin)))))
     ctx.ensure(tag + ("noise_power" if target is not None else "snr"), SP.conj(pw))
     return powers
 
 
 def snr_linear_const(snr_db):
-    return Fraction(10.0 ** (float(snr_db) / 10.0))
+    """10^(snr/10) evaluated in float64 (torch's pow, so that the constant coincides with the float the library computes; the deviation from
+    the true real value is below 1e-15 relative and is covered by the stated 1e-6)"""
+    with torch._C.DisableTorchFunctionSubclass():
+        v = float(10 ** (torch.tensor(float(snr_db), dtype=torch.float64) / 10.0))
+    assert abs(v / 10.0 ** (float(snr_db) / 10.0) - 1) < 1e-12
+    return Fraction(v)
 
 
 def power_tensor(ctx, p):
@@ -318,7 +459,15 @@ def _cubic(t):
     return t + 0.1 * t * t * t
 
 
-NLF = {"cubic": _cubic, "tanh": torch.tanh}
+def _softclip(t):
+    return t / (1 + t * t)
+
+
+def _square(t):
+    return 0.5 * t * t + 0.25 * t
+
+
+NLF = {"cubic": _cubic, "softclip": _softclip, "square": _square}
 XCONC = {"n3": [(0.75, -0.5), (-1.25, 0.25), (0.5, 2.0)], "n2": [(1.5, 0.5), (-0.25, -1.0)]}
 
 
@@ -326,10 +475,10 @@ def _nl_cfgs(tier):
     out = []
     noise = [("none", 0), ("P", "sym"), ("snr", 10.0)] + ([("snr", -20.0), ("snr", 40.0), ("P", 1e-3), ("P", 1e3)] if tier == "thorough" else [])
     for how, val in noise:
-        for f in ("cubic", "tanh"):
+        for f in ("cubic", "softclip"):
             out.append(Cfg("nonlinear", "real", "n3", f, "direct", how, val))
             out.append(Cfg("nonlinear", "complex", "n2", f, "cartesian", how, val))
-        out.append(Cfg("nonlinear", "complex", "n2", "cubic", "direct", how, val))
+        out.append(Cfg("nonlinear", "complex", "n2", "square", "direct", how, val))
         out.append(Cfg("nonlinear", "xconc", "n3", "cubic", "polar", how, val))
     if tier == "thorough":
         out.append(Cfg("nonlinear", "real", "2x2", "cubic", "direct", "P", "sym"))
@@ -383,3 +532,297 @@ def nonlinear(ctx, cfg):
         ctx.ensure("y_is_f_of_x", S.land(all_near(yr, br, sc), all_near(yi, bi, sc)))
         return
     noise_algebra(ctx, chan.forward, (x,), {}, y, (br, bi), list(ctx.rng_draws), target=target, snr_lin=snr_lin, signal_power=mean_abs2(br, bi), xscale=sc)
+
+
+# ================================================================================================ one definition of SNR: utilities
+# textbook:  snr_lin = 10^(snr_db/10);  snr_db = 10 log10(snr_lin);  P_n = P_s / 10^(snr_db/10);  snr_db = 10 log10(P_s / P_n);
+#            P_s = mean |x|^2 ;  SNR(x, y) = 10 log10( mean|x|^2 / mean|y - x|^2 )
+# pow10 / log10 are uninterpreted with the per-occurrence axioms of vk/ops_chan.py; the obligations below therefore prove that every
+# function applies THE SAME pow10 / log10 to the textbook argument (e.g. snr/10 and not snr/20; P_s/P_n and not P_n/P_s or amplitudes).
+FM = "kaira/metrics/signal/snr.py"
+EPS32 = Fraction(float(torch.finfo(torch.float32).eps))
+M_UP = Fraction(4342945, 10**7)  # 1/ln(10) = 0.43429448...
+M_LO = Fraction(4342944, 10**7)
+
+
+def pos_tensor(ctx, name, shape, lo=None, dtype=torch.float32):
+    t = ctx.reals(name, shape, dtype, sampler=lambda r: 10 ** r.uniform(-2, 3))
+    for v in PC(t)[0].reshape(-1):
+        ctx.assume(S.lt(0, v) if lo is None else S.le(lo, v))
+    return t
+
+
+def spec_mean_abs2(x, dim, keepdim):
+    """mean |x|^2 over `dim` (None: all) as payload array"""
+    re, im = PC(x)
+    a2 = np.empty(re.shape, dtype=object)
+    for i in np.ndindex(*re.shape):
+        a2[i] = S.add(sq(re[i]), sq(im[i]))
+    if dim is None:
+        acc = 0
+        for v in a2.reshape(-1):
+            acc = S.add(acc, v)
+        out = np.empty((), dtype=object)
+        out[()] = S.div(acc, a2.size)
+        return out.reshape((1,) * re.ndim) if keepdim else out
+    ax = dim % re.ndim
+    moved = np.moveaxis(a2, ax, -1)
+    out = np.empty(moved.shape[:-1], dtype=object)
+    for i in np.ndindex(*out.shape):
+        acc = 0
+        for v in moved[i]:
+            acc = S.add(acc, v)
+        out[i] = S.div(acc, moved.shape[-1])
+    return np.expand_dims(out, ax) if keepdim else out
+
+
+def _conv_cfgs(tier):
+    out = []
+    for shp in ("s", "n2") + (("2x2",) if tier == "thorough" else ()):
+        out += [Cfg("db_to_linear", shp), Cfg("linear_to_db", shp, "pos"), Cfg("linear_to_db", shp, "neg"), Cfg("to_noise_power", shp, "tensor"), Cfg("noise_power_to_snr", shp, "pos"), Cfg("noise_power_to_snr", shp, "nonpos")]
+    for s in SNR_GRID_Q if tier == "quick" else SNR_GRID_T:
+        out.append(Cfg("to_noise_power", "n2", s))
+    return out
+
+
+def _shape_of(shp):
+    return () if shp == "s" else SHAPES[shp]
+
+
+@obligation("C07.snr_conversions", function=FU + ":snr_db_to_linear; " + FU + ":snr_linear_to_db; " + FU + ":snr_to_noise_power; " + FU + ":noise_power_to_snr", configs=_conv_cfgs, max_paths=64, timeout_ms=30000, crosscheck=0)
+def snr_conversions(ctx, cfg):
+    """crosscheck=0: results contain the uninterpreted pow10/log10, which the harness' model-based differential check cannot evaluate;
+    the concrete behaviour of the same functions is covered by C07.snr_grid (bounded, against mpmath)."""
+    from kaira.utils import snr as U
+
+    fn, shp = cfg[0], cfg[1]
+    shape = _shape_of(shp)
+    if fn == "db_to_linear":
+        s = ctx.reals("snr_db", shape, sampler=lambda r: r.uniform(-20, 40))
+        out = ctx.call(U.snr_db_to_linear, s)
+        ctx.ensure("returns", out.ok, note=repr(out.exc) if not out.ok else "")
+        if not out.ok:
+            return
+        o, sv = PC(out.value)[0], PC(s)[0]
+        ctx.ensure("shape", SP.shape_is(out.value, shape))
+        ctx.ensure("is_pow10_of_tenth", SP.conj(S.eq(a, OC.spow10(S.div(b, 10))) for a, b in zip(o.reshape(-1), sv.reshape(-1))))
+        ctx.ensure("positive", SP.conj(S.lt(0, a) for a in o.reshape(-1)))
+        ctx.ensure("0dB_is_1_and_10dB_is_10", SP.conj(S.land(S.lor(S.ne(b, 0), S.eq(a, 1)), S.lor(S.ne(b, 10), S.eq(a, 10))) for a, b in zip(o.reshape(-1), sv.reshape(-1))))
+        return
+    if fn == "linear_to_db":
+        v = ctx.reals("snr_lin", shape, sampler=lambda r: 10 ** r.uniform(-2, 4) if cfg[2] == "pos" else r.uniform(-1, 1))
+        vv = PC(v)[0]
+        if cfg[2] == "pos":
+            for a in vv.reshape(-1):
+                ctx.assume(S.lt(0, a))
+        else:
+            ctx.assume(SP.disj(S.lt(a, 0) for a in vv.reshape(-1)))
+        out = ctx.call(U.snr_linear_to_db, v)
+        if cfg[2] == "neg":
+            ctx.ensure("negative_ratio_rejected", out.raised(ValueError), note=repr(out))
+            return
+        ctx.ensure("returns", out.ok, note=repr(out.exc) if not out.ok else "")
+        if not out.ok:
+            return
+        o = PC(out.value)[0]
+        ctx.ensure("shape", SP.shape_is(out.value, shape))
+        ctx.ensure("is_10_log10", SP.conj(S.eq(a, S.mul(10, OC.slog10(b))) for a, b in zip(o.reshape(-1), vv.reshape(-1))))
+        # round trip through the library's own inverse: db -> linear -> db
+        with ctx.sym():
+            back = U.snr_db_to_linear(out.value)
+        ctx.ensure("db_to_linear_inverts", SP.conj(S.eq(a, b) for a, b in zip(PC(back)[0].reshape(-1), vv.reshape(-1))))
+        return
+    if fn == "to_noise_power":
+        ps = pos_tensor(ctx, "Ps", shape)
+        pv = PC(ps)[0]
+        if cfg[2] == "tensor":
+            s = ctx.reals("snr_db", (), sampler=lambda r: r.uniform(-20, 40))
+            out = ctx.call(U.snr_to_noise_power, ps, s)
+            lin = OC.spow10(S.div(PC(s)[0][()], 10))
+        else:
+            out = ctx.call(U.snr_to_noise_power, ps, float(cfg[2]))
+            lin = snr_linear_const(cfg[2])
+        ctx.ensure("returns", out.ok, note=repr(out.exc) if not out.ok else "")
+        if not out.ok:
+            return
+        o = PC(out.value)[0]
+        ctx.ensure("shape", SP.shape_is(out.value, shape))
+        ctx.ensure("Pn_times_linear_snr_is_Ps", SP.conj(near(S.mul(a, lin), b, S.sabs(b)) for a, b in zip(o.reshape(-1), pv.reshape(-1))))
+        if cfg[2] == "tensor":
+            ctx.ensure("Pn_is_Ps_over_pow10", SP.conj(S.eq(a, S.div(b, lin)) for a, b in zip(o.reshape(-1), pv.reshape(-1))))
+            # measuring it back with the library's own inverse returns the configured value
+            with ctx.sym():
+                back = U.noise_power_to_snr(ps, out.value)
+            sv = PC(s)[0][()]
+            ctx.ensure("noise_power_to_snr_inverts", SP.conj(S.eq(a, sv) for a in PC(back)[0].reshape(-1)))
+        return
+    if fn == "noise_power_to_snr":
+        ps = pos_tensor(ctx, "Ps", shape)
+        pn = ctx.reals("Pn", shape, sampler=lambda r: 10 ** r.uniform(-3, 3) if cfg[2] == "pos" else r.choice([0.0, -1.0, 1.0]))
+        nv = PC(pn)[0]
+        if cfg[2] == "pos":
+            for a in nv.reshape(-1):
+                ctx.assume(S.lt(0, a))
+        else:
+            ctx.assume(SP.disj(S.le(a, 0) for a in nv.reshape(-1)))
+        out = ctx.call(U.noise_power_to_snr, ps, pn)
+        if cfg[2] == "nonpos":
+            ctx.ensure("nonpositive_noise_power_rejected", out.raised(ValueError), note=repr(out))
+            return
+        ctx.ensure("returns", out.ok, note=repr(out.exc) if not out.ok else "")
+        if not out.ok:
+            return
+        o = PC(out.value)[0]
+        ctx.ensure("is_10_log10_Ps_over_Pn", SP.conj(S.eq(a, S.mul(10, OC.slog10(S.div(b, c)))) for a, b, c in zip(o.reshape(-1), PC(ps)[0].reshape(-1), nv.reshape(-1))))
+        return
+    raise AssertionError(fn)
+
+
+# ------------------------------------------------------------------------------------------------ measurement functions
+def _meas_cfgs(tier):
+    out = []
+    for kind in ("real", "complex"):
+        for shp, dim in (("n3", None), ("2x2", None), ("2x2", -1), ("2x2", 0)) + ((("2x1x2", 1), ("n1", None)) if tier == "thorough" else ()):
+            for keep in (False, True):
+                out.append(Cfg("estimate_signal_power", kind, shp, dim, keep))
+            out.append(Cfg("calculate_snr", kind, shp, dim, False))
+        for shp in ("n3", "2x2", "1x3"):
+            for mode in ("db", "linear"):
+                out.append(Cfg("metric", kind, shp, mode))
+    return out
+
+
+def log_quotient_axioms(a, la, b, lb, r):
+    """trusted instances of the log10 theory for a, b, r > 0 with a == r*b:  log10(a) - log10(b) == log10(r),
+    (1 - 1/r)/ln10 <= log10(r) <= (r - 1)/ln10   (ln r <= r - 1 applied to r and to 1/r)"""
+    ex = S.explorer()
+    if ex is None:
+        return
+    f = S._uf("log10")
+    lr = f(r)
+    ex.add_side(z3.Implies(z3.And(a > 0, b > 0, r > 0, a == r * b), la - lb == lr))
+    mu, ml = S.zreal(M_UP), S.zreal(M_LO)
+    ex.add_side(z3.Implies(z3.And(r > 0, r >= 1), z3.And(lr <= (r - 1) * mu, lr >= (1 - 1 / r) * ml)))
+    ex.add_side(z3.Implies(z3.And(r > 0, r < 1), z3.And(lr <= (r - 1) * ml, lr >= (1 - 1 / r) * mu)))
+
+
+@obligation("C07.snr_measurement", function=FU + ":estimate_signal_power; " + FU + ":calculate_snr; " + FM + ":SignalToNoiseRatio.forward", configs=_meas_cfgs, max_paths=64, timeout_ms=60000, crosscheck=0)
+def snr_measurement(ctx, cfg):
+    """crosscheck=0 for the same reason as C07.snr_conversions (log10 is uninterpreted); concrete behaviour: C07.snr_grid."""
+    from kaira.metrics.signal.snr import SignalToNoiseRatio
+    from kaira.utils import snr as U
+
+    fn, kind, shp = cfg[0], cfg[1], cfg[2]
+    shape = SHAPES[shp]
+    x = make_input(ctx, kind, shape)
+    if fn == "estimate_signal_power":
+        dim, keep = cfg[3], cfg[4]
+        out = ctx.call(U.estimate_signal_power, x, dim=dim, keepdim=keep)
+        ctx.ensure("returns", out.ok, note=repr(out.exc) if not out.ok else "")
+        if not out.ok:
+            return
+        want = spec_mean_abs2(x, dim, keep)
+        o = PC(out.value)[0]
+        ctx.ensure("shape", tuple(o.shape) == tuple(want.shape))
+        ctx.ensure("is_mean_abs_squared", all_near(o, want, want) if tuple(o.shape) == tuple(want.shape) else False)
+        return
+    y = make_input(ctx, kind, shape, name="y")
+    (xr, xi), (yr, yi) = PC(x), PC(y)
+    nre = np.array([S.sub(a, b) for a, b in zip(yr.reshape(-1), xr.reshape(-1))], dtype=object).reshape(shape)
+    nim = np.array([S.sub(a, b) for a, b in zip(yi.reshape(-1), xi.reshape(-1))], dtype=object).reshape(shape)
+
+    class _N:  # payload holder with the interface PC() understands
+        pass
+
+    def m2(re, im, dim):
+        a2 = np.empty(re.shape, dtype=object)
+        for i in np.ndindex(*re.shape):
+            a2[i] = S.add(sq(re[i]), sq(im[i]))
+        if dim is None:
+            acc = 0
+            for v in a2.reshape(-1):
+                acc = S.add(acc, v)
+            o = np.empty((), dtype=object)
+            o[()] = S.div(acc, a2.size)
+            return o
+        moved = np.moveaxis(a2, dim % re.ndim, -1)
+        o = np.empty(moved.shape[:-1], dtype=object)
+        for i in np.ndindex(*o.shape):
+            acc = 0
+            for v in moved[i]:
+                acc = S.add(acc, v)
+            o[i] = S.div(acc, moved.shape[-1])
+        return o
+
+    floor = Fraction(1, 1000)
+    if fn == "calculate_snr":
+        dim = cfg[3]
+        ps, pn = m2(xr, xi, dim), m2(nre, nim, dim)
+        for v in pn.reshape(-1):
+            ctx.assume(S.le(floor, v))  # requires P_n >= 1e-3 : the clamp(min=eps) is inactive
+        out = ctx.call(U.calculate_snr, x, y, dim=dim)
+        ctx.ensure("returns", out.ok, note=repr(out.exc) if not out.ok else "")
+        if not out.ok:
+            return
+        o = PC(out.value)[0]
+        ctx.ensure("shape", tuple(o.shape) == tuple(ps.shape))
+        ctx.ensure("is_10_log10_Ps_over_Pn", SP.conj(S.eq(a, S.mul(10, OC.slog10(S.div(b, c)))) for a, b, c in zip(o.reshape(-1), ps.reshape(-1), pn.reshape(-1))))
+        return
+    # metric
+    mode = cfg[3]
+    batched = len(shape) > 1 and shape[0] > 1
+    ps, pn = (m2(xr, xi, -1), m2(nre, nim, -1)) if batched and len(shape) == 2 else (m2(xr, xi, None), m2(nre, nim, None))
+    for v in pn.reshape(-1):
+        ctx.assume(S.le(floor, v))
+    for v in ps.reshape(-1):
+        ctx.assume(S.lt(0, v))
+    met = SignalToNoiseRatio(mode=mode)
+    out = ctx.call(met.forward, x, y)
+    ctx.ensure("returns", out.ok, note=repr(out.exc) if not out.ok else "")
+    if not out.ok:
+        return
+    o = PC(out.value)[0]
+    ctx.ensure("one_value_per_batch_item", tuple(o.shape) == tuple(ps.shape))
+    if tuple(o.shape) != tuple(ps.shape):
+        return
+    # step 1 (normal form): the value returned is  Ps/(Pn + eps)  resp.  10 log10 of it, as rational functions of the inputs
+    # step 2 (lemma, fresh n = Ps > 0, d = Pn >= 1e-3): n/(d + eps) resp. its log is within the stated distance of the textbook n/d
+    struct, dens = [], []
+    for a, b, c in zip(o.reshape(-1), ps.reshape(-1), pn.reshape(-1)):
+        code_form = S.div(b, S.add(c, EPS32))
+        if ctx.mode != "sym":
+            ratio = b / c
+            if mode == "linear":
+                struct.append(abs(a - ratio) <= Fraction(12, 10**5) * ratio + RT * ratio)
+            else:
+                struct.append(abs(a - 10 * Fraction(math.log10(float(ratio)))) <= Fraction(1, 1000))
+            continue
+        if mode == "linear":
+            ok, dd = rat_eq(a, code_form)
+        else:
+            apps = uf_apps(a.e, "log10")
+            ok = len(apps) == 1
+            dd = []
+            if ok:
+                L = z3.Real("L!abs")
+                rest = z3.simplify(z3.substitute(a.e, (apps[0], L)) - 10 * L, som=True)
+                ok = z3.is_rational_value(rest) and rest.numerator_as_long() == 0
+                ok2, dd = rat_eq(S.Sym(apps[0].arg(0)), code_form)
+                ok = ok and ok2
+        struct.append(ok)
+        dens += [S.ne(v, 0) for v in dd]
+    ctx.ensure("returns_Ps_over_Pn_plus_eps" if mode == "linear" else "returns_10_log10_of_Ps_over_Pn_plus_eps", SP.conj(struct))
+    if ctx.mode != "sym":
+        return
+    ctx.ensure("denominators_nonzero", SP.conj(dens))
+    n_, d_ = S.Sym(z3.Real("n!lemma")), S.Sym(z3.Real("d!lemma"))
+    pre = S.land(S.lt(0, n_), S.le(floor, d_))
+    ratio, code = S.div(n_, d_), S.div(n_, S.add(d_, EPS32))
+    if mode == "linear":
+        body = S.land(S.le(code, ratio), S.le(S.mul(ratio, 1 - Fraction(12, 10**5)), code))
+        ctx.ensure("lemma_eps_moves_ratio_by_at_most_1.2e-4_relative", S.lor(S.lnot(pre), body))
+    else:
+        la, lb = OC.slog10(code), OC.slog10(ratio)
+        log_quotient_axioms(S.zreal(code), S.zreal(la), S.zreal(ratio), S.zreal(lb), S.zreal(S.div(d_, S.add(d_, EPS32))))
+        body = S.le(S.sabs(S.sub(S.mul(10, la), S.mul(10, lb))), Fraction(1, 1000))
+        ctx.ensure("lemma_eps_moves_snr_by_at_most_1e-3_dB", S.lor(S.lnot(pre), body))
